@@ -174,9 +174,9 @@ var Fields = []FieldSpec{
 	{DirIFD0, 0x010e, "ImageDescription", strMenu("A verification photo"), false, ""},
 	{DirIFD0, 0x010f, "Make", []Val{S("Canon"), S("Apple"), S("VerifCam"), S("Q")}, false, ""},
 	{DirIFD0, 0x0110, "Model", []Val{S("VerifCam X-1"), S("M"), S("EOS"), S(seqStr(40))}, false, ""},
-	{DirIFD0, 0x0111, "StripOffsets", []Val{Long(123456), Long(0xffffffff), Short(5), Long(1)}, false, ""},
+	{DirIFD0, 0x0111, "StripOffsets", []Val{Long(123456), Long(0xffffffff), Short(5), Long(1), Long(1000, 2000, 3000), Short(7, 8, 9)}, false, ""},
 	{DirIFD0, 0x0112, "Orientation", []Val{Short(1), Short(8), Short(6), Short(0), Short(65535)}, false, ""},
-	{DirIFD0, 0x0117, "StripByteCounts", []Val{Long(654321), Long(0xffffffff), Short(7)}, false, ""},
+	{DirIFD0, 0x0117, "StripByteCounts", []Val{Long(654321), Long(0xffffffff), Short(7), Long(4096, 4096), Short(512, 256)}, false, ""},
 	{DirIFD0, 0x0131, "Software", strMenu("VerifWriter 1.0"), false, ""},
 	{DirIFD0, 0x0132, "DateTime", []Val{S(dates[0]), S(dates[1]), S(dates[2]), S(dates[3])}, false, ""},
 	{DirIFD0, 0x013b, "Artist", strMenu("Ada Lovelace"), false, ""},
@@ -187,7 +187,7 @@ var Fields = []FieldSpec{
 	{DirExif, 0x829a, "ExposureTime", []Val{Rat(r(1, 250)), Rat(r(30, 1)), Rat(r(1, 8000)), Rat(r(0, 1)), Rat(r(16777215, 1)), Rat(r(1, 16777215)), Rat(r(1, 3))}, false, ""},
 	{DirExif, 0x829d, "FNumber", []Val{Rat(r(28, 10)), Rat(r(1, 1)), Rat(r(22, 1)), Rat(r(95, 100))}, false, ""},
 	{DirExif, 0x8822, "ExposureProgram", []Val{Short(2), Short(0), Short(9), Short(65535)}, false, ""},
-	{DirExif, 0x8827, "ISOSpeedRatings", []Val{Short(100), Short(65535), Short(0), Long(102400)}, false, ""},
+	{DirExif, 0x8827, "ISOSpeedRatings", []Val{Short(100), Short(65535), Short(0), Long(102400), Short(200, 400), Short(400, 200, 800), Short(0x1234, 0)}, false, ""},
 	{DirExif, 0x9003, "DateTimeOriginal", []Val{S("2023:06:15 12:34:50"), S(dates[1]), S(dates[2])}, false, ""},
 	{DirExif, 0x9004, "DateTimeDigitized", []Val{S("2023:06:15 12:34:51"), S(dates[3])}, false, ""},
 	{DirExif, 0x9010, "OffsetTime", offMenu, false, ""},
